@@ -76,6 +76,53 @@ func genTemplate(r *rand.Rand, dom uint32, id uint16, o tmplOpts) gTemplate {
 	return t
 }
 
+// nearVariant returns a template for the same (domain, id) that differs from t in one position only:
+// an unknown element is replaced by another unknown one (other id, other length or both), a registry
+// element by another registry element. Count and all other positions stay, which is the shape a
+// "this is only a refresh" shortcut is most likely to mistake for the template it already holds.
+func nearVariant(r *rand.Rand, t gTemplate, o tmplOpts) (gTemplate, bool) {
+	if len(t.Fields) == 0 {
+		return t, false
+	}
+	nt := gTemplate{Dom: t.Dom, ID: t.ID, Fields: append([]gField(nil), t.Fields...)}
+	pos := r.IntN(len(nt.Fields))
+	for i := range nt.Fields { // prefer an unknown element when there is one
+		if !nt.Fields[i].Known && nt.Fields[i].F.Len != 65535 && r.IntN(2) == 0 {
+			pos = i
+			break
+		}
+	}
+	old := nt.Fields[pos]
+	if !old.Known {
+		if !o.unknown {
+			return t, false
+		}
+		f := old.F
+		switch r.IntN(3) {
+		case 0:
+			f.ID++
+		case 1:
+			f.Len = []uint16{1, 2, 4, 8, 3, 17}[r.IntN(6)]
+		default:
+			f.ID++
+			f.Len = []uint16{1, 2, 4, 8, 3, 17}[r.IntN(6)]
+		}
+		if f == old.F {
+			f.Len++
+		}
+		nt.Fields[pos] = gField{F: f, Width: f.Len}
+		return nt, true
+	}
+	for try := 0; try < 8; try++ {
+		sp := catalog[r.IntN(len(catalog))]
+		if sp.field() != old.F {
+			nt.Fields[pos] = gField{F: sp.field(), Known: true, Spec: sp, Width: sp.Len}
+			return nt, true
+		}
+	}
+	return t, false
+}
+
 func (t gTemplate) wireFields() []ipfixref.Field {
 	out := make([]ipfixref.Field, len(t.Fields))
 	for i, f := range t.Fields {
